@@ -604,7 +604,9 @@ mod matching {
         EM: EdgeMatcher<G0, G1>,
     {
         if st.0.is_complete() {
-            return Some(st.0.mapping.clone());
+            // Only an empty pattern is complete before any frame has run:
+            // it has exactly one (empty) mapping, so consume the pending frame.
+            return stack.pop().map(|_| st.0.mapping.clone());
         }
 
         // A "depth first" search of a valid mapping from graph 1 to graph 2
